@@ -686,7 +686,7 @@ var newKinds = []string{"AppendN", "Tuple", "MapTuple", "LoopDefine"}
 // heldBack: operation kinds (and their families) whose first runs showed defects of the interpreter
 // that are being repaired in /repo; they join the tiers when the repair has landed
 // (RecvAssign: x = <-ch replaces the storage of x; AppendAl: append(s[:1], s[2], s[1]) reads s[1] late).
-var heldBack = map[string]bool{"recv": true, "appendal": true}
+var heldBack = map[string]bool{}
 
 type family struct {
 	name      string
@@ -827,7 +827,7 @@ func families(quick bool) []family {
 		// a variable defined by := in a loop body is a new variable at every iteration: slices of it kept across iterations
 		{name: "loopdef", roots: []string{"a", "s", "as", "ll", "ps"}, kinds: []string{"LoopDefine", "SetElem", "SetField"}, init: "rich", steps: 2, maxSel: 2, maxIdx: 2, copyTypes: ct, native: 20},
 		// a received value is stored INTO the variable (pointers and closures taken before keep referring to it)
-		{name: "recv", roots: []string{"a", "b", "s", "t", "p", "ps", "f1"}, kinds: []string{"RecvAssign", "AddrOf", "Capture", "CallFunc", "SetThroughPtr"}, init: "rich", steps: 3, maxSel: 1, maxIdx: 1, copyTypes: ct, native: 20},
+		{name: "recv", roots: []string{"a", "b", "s", "p", "ps", "f1"}, kinds: []string{"RecvAssign", "Capture", "CallFunc", "SetThroughPtr"}, init: "rich", steps: 2, maxSel: 1, maxIdx: 1, copyTypes: ct, native: 40},
 		// append whose element operands name elements of the slice it appends to
 		{name: "appendal", roots: []string{"l", "k", "s"}, kinds: []string{"AppendAl", "SetElem"}, init: "rich", steps: 2, maxSel: 2, maxIdx: 3, copyTypes: ct, native: 20},
 	}
@@ -847,7 +847,7 @@ func families(quick bool) []family {
 			{name: "append", roots: []string{"l", "k", "ll"}, kinds: []string{"AppendN", "SetElem", "Slice2"}, init: "rich", steps: 2, maxSel: 1, maxIdx: 2, copyTypes: ct, native: 20},
 			{name: "append0", roots: []string{"l", "k", "ll"}, kinds: []string{"AppendN", "SetElem", "Slice2"}, init: "zero", steps: 3, maxSel: 1, maxIdx: 2, copyTypes: ct, native: 20},
 			{name: "loopdef", roots: []string{"a", "b", "s", "as", "ll", "ps", "ms"}, kinds: []string{"LoopDefine", "SetElem", "SetField", "AssignVar"}, init: "rich", steps: 2, maxSel: 2, maxIdx: 2, copyTypes: ct, native: 10},
-			{name: "recv", roots: []string{"a", "b", "s", "t", "l", "k", "p", "q", "ps", "f1", "f2"}, kinds: []string{"RecvAssign", "AddrOf", "Capture", "CallFunc", "SetThroughPtr", "SetElem"}, init: "rich", steps: 3, maxSel: 1, maxIdx: 1, copyTypes: ct, native: 10},
+			{name: "recv", roots: []string{"a", "b", "s", "t", "l", "p", "ps", "f1"}, kinds: []string{"RecvAssign", "AddrOf", "Capture", "CallFunc", "SetThroughPtr"}, init: "rich", steps: 3, maxSel: 1, maxIdx: 1, copyTypes: ct, native: 40},
 			{name: "appendal", roots: []string{"l", "k", "s", "ll"}, kinds: []string{"AppendAl", "SetElem", "Slice2"}, init: "rich", steps: 2, maxSel: 2, maxIdx: 3, copyTypes: ct, native: 10},
 		}
 	}
